@@ -68,6 +68,9 @@ var sobsState struct {
 // for release (a constructor that takes its time while the server is closed).
 var ctorGate atomic.Value // *ctorHold
 
+// self-test of the alternative schedule: the constructor is never held
+var forceUnheld = strings.Contains(os.Getenv("VERIF_C10_FORCE"), "unheld")
+
 type ctorHold struct {
 	entered chan struct{}
 	release chan struct{}
@@ -77,7 +80,7 @@ type ctorHold struct {
 func newSProto(n *onet.TreeNodeInstance) (onet.ProtocolInstance, error) {
 	// only the start the script makes is held: a root instance on the target (the constructors that
 	// run on the other servers for traffic still arriving must not take the hold)
-	if g, _ := ctorGate.Load().(*ctorHold); g != nil && n.IsRoot() && n.ServerIdentity().ID.Equal(sobsState.target) &&
+	if g, _ := ctorGate.Load().(*ctorHold); g != nil && !forceUnheld && n.IsRoot() && n.ServerIdentity().ID.Equal(sobsState.target) &&
 		atomic.CompareAndSwapInt32(&g.used, 0, 1) {
 		close(g.entered)
 		<-g.release
